@@ -98,3 +98,16 @@ pub fn sessions(a: &Args) {
     let l = rt.block_on(np::verif_get_sessions(&auth, &unnamed));
     println!("listed={}", l.iter().map(|x| x.to_string()).collect::<Vec<_>>().join(","));
 }
+
+/// node_commit servers=<0|1,..> nonces=<..> before=<ids> announcing=<id>
+pub fn commit(a: &Args) {
+    let srv = a.list_u128("servers");
+    let non = a.list_u128("nonces");
+    let sessions: Vec<(bool, u64)> = (0..srv.len()).map(|i| (srv[i] != 0, non[i] as u64)).collect();
+    let before: Vec<u64> = a.list_u128("before").iter().map(|x| *x as u64).collect();
+    let rt = tokio::runtime::Builder::new_current_thread().enable_time().build().unwrap();
+    let (auth, stopped) = rt.block_on(np::verif_commit(&sessions, &before, a.u64("announcing")));
+    let j = |v: &Vec<u64>| v.iter().map(|x| x.to_string()).collect::<Vec<_>>().join(",");
+    println!("authenticated={}", j(&auth));
+    println!("stopped={}", j(&stopped));
+}
